@@ -3,7 +3,7 @@ from fractions import Fraction
 
 from ..common import rng
 from ..drivers import behaviours
-from ..drivers import programs, targeted
+from ..drivers import evo, programs, targeted
 from ._twin import replay_programs, run_programs
 
 
@@ -25,6 +25,7 @@ def check(run, tier):
         run.mc("MC_Twin", "MC_Twin_mixed_d4", timeout=3000)
     r = rng("C03")
     progs = targeted.fault_programs("evo") + targeted.fault_programs("fluent")
+    progs += [p for p in evo.targeted_programs() if "oversized" in p["id"] or "canonical" in p["id"]]
     n = 200 if q else 4000
     for i in range(n):
         dev = "evo" if i % 2 == 0 else "fluent"
